@@ -240,6 +240,7 @@ class P(Prop):
     M = "TracklibVerif.Props.C15"
     MX = "TracklibVerif.Props.C15Ext"
     MF = "TracklibVerif.Props.C15ExtFin"
+    MN = "TracklibVerif.Props.C15ExtNonneg"
     theorems = [
         (M, "TV.C15.window_spec", "(w,x) is in the window of i iff w = k[j] and x = v[i-j+D] for a kernel position j whose sample index is inside the signal and not NaN"),
         (M, "TV.C15.filter_is_mean", "T1: in the domain Filter.execute succeeds, returns one value per observation, and every filtered value is (sum k[j] v[i-j+D]) / (sum k[j]) over the valid j"),
@@ -298,6 +299,8 @@ class P(Prop):
         (MX, "TV.C15.list_zero_or_nan_total", "a weight list whose total is 0 ([1,-1,0], [0,0,0]) or NaN (a NaN weight: a feature-name kernel over a feature holding a NaN): kernel[i] /= np.sum(...) does not raise, the list is left holding only inf/-inf/nan, the call returns the copied boundaries and NaN at every filtered index (ZeroDivisionError iff a window reads no sample)"),
         (MX, "TV.C15.inf_sample_pinf", "a window holding +inf samples and no -inf, all weights positive: the output is +inf (Python floats and numpy scalars alike)"),
         (MX, "TV.C15.inf_sample_both_nan", "a window holding a +inf and a -inf sample, positive weights: the output is NaN, no exception"),
+        (MN, "TV.C15.inf_sample_nonneg_pinf", "non-negative weights (the window of a Kernel object, zero at the support edge), a +inf sample, no -inf, every infinite sample under a positive weight: the output is +inf"),
+        (MN, "TV.C15.inf_sample_zero_weight_nan", "a zero weight on an infinite sample (the edge of a Uniform / Triangular window over +/-inf): 0 * inf is NaN and the output is NaN, not the mean of the samples that carry weight"),
         (MF, "TV.C15.fin_div_fin", "temp[i] / norm as numpy computes it from finite accumulators: t/n when n != 0, else inf / -inf by the sign of t, nan for 0/0"),
         (MF, "TV.C15.finite_weights_any_sign", "finite weights of ANY sign (negative included), every window reading a sample: out[i] = (sum k[j] v[i-j+D]) / (sum k[j]) as numpy divides — the renormalised mean when the norm is not 0, +/-inf or NaN when it cancels; never an exception with numpy weights"),
         (MF, "TV.C15.ext_model_agrees", "no zero norm: the model over Python's numbers returns exactly the signal of the model over a field (meanSignal), so the domain theorems (filter_is_mean, filter_bounds, ...) hold for it"),
@@ -312,7 +315,8 @@ class P(Prop):
                        "window_shape / window_of_nonneg_kernel apply to them under the stated hypotheses (even, non-negative at the sample points, positive at one)",
                        "a window that holds an infinite sample has no weighted mean in the reals and the property demands nothing there; what the code returns is modelled over "
                        "Ext (Model/FilterExt.lean: exact scalars + inf, -inf, nan with the IEEE rules for the special values), compared on the 'ext' stream (and over Float on 'inff') and proved: "
-                       "+inf for +inf samples under positive weights (inf_sample_pinf), NaN for both signs (inf_sample_both_nan); no statement stronger than these exists over an "
+                       "+inf for +inf samples under positive weights (inf_sample_pinf; inf_sample_nonneg_pinf for the windows of Kernel objects), NaN for both signs (inf_sample_both_nan) "
+                       "and for a zero weight on an infinite sample (inf_sample_zero_weight_nan); no statement stronger than these exists over an "
                        "ordered field extended with a top and a bottom, since inf - inf and 0 * inf have no value there (they are NaN)",
                        "weight lists whose total is 0 or NaN and negative weights are outside the property (it speaks of non-negative kernels; with a total of 0 no renormalisation exists): "
                        "they are modelled as coded over Ext, compared on the 'ext' stream, and what is returned is proved (list_zero_or_nan_total, nonfinite_weights_nan, "
